@@ -51,6 +51,7 @@ class Contract:
         self.effects = kw.pop("effects", None)    # clause appended to the ghost effect trace (callers)
         self.cover = kw.pop("cover", [])
         self.l2 = kw.pop("l2", None)
+        self.any_only_if = kw.pop("any_only_if", None)   # C05 inventory: clause that must hold wherever the body mentions the literal typing.Any
         self.carve = kw.pop("carve", {})          # clause-key prefix -> known-finding key: obligations that are the failure set of a recorded finding
         self.hints = kw.pop("hints", {})          # label -> clause: proved at the return point, then available to the ensures (lemmas)
         self.assumes = kw.pop("assumes", {})      # label -> clause assumed on entry (trusted; listed in the evidence)
